@@ -28,6 +28,12 @@ CLAIMED = {
          'proof in Coq + K-api correspondence + reader judgement (known finding D12 for shared set names)'),
  'C20': ('7 C20', 'Coq theorem C20_reject: every rejected operation (add_* of every type at every rejection point, assignment, add_logical_file) leaves objects, registration lists, no-format data, data dictionary, headers and mode unchanged (only empty sets may appear); C20_copy_numbers; tie: K-api correspondence and, for every program with rejected calls, decoded inventory equality with the same history without them',
          'proof in Coq (case analysis of the step function) + K-api correspondence + differential histories'),
+ 'C11': ('7 C11', 'Coq theorems C11_sources (direct-slice path of a structured source = generic per-channel path), C11_window (loading from the window = loading from pre-sliced arrays), C11_chunks (for every input chunk size the rows produced are exactly rows [from, to) in frame channel order) over Model/Data.v; tie: the same data through inline / dict / structured array / HDF5 with permuted fields, extra datasets, dataset-name mapping, all windows and chunk sizes: byte-identical files, equal to the pre-sliced reference; K-api correspondence of the dict route',
+         'proof in Coq (slice/zip algebra by induction) + differential execution across source kinds + K-api correspondence'),
+ 'C13': ('7 C13', 'Coq theorem C13_index over exact integer arithmetic (Model/Data.v index_stats): INDEX-MIN/MAX are the attained minimum/maximum; SPACING only for >= 2 rows and only when every difference equals it or lies within (1 - d/s)^2 < 1/1000 of the non-zero median; DIRECTION reflects the monotone sense; single row: neither; tie: decoded FRAME attributes of real files over all dtypes / patterns / windows / user values vs the model statistics; known finding D9 for repeated writes with other data',
+         'proof in Coq (exact arithmetic; partial for inexact float data) + reader judgement of real files + K-api correspondence'),
+ 'C19': ('7 C19', 'PARTIAL. Coq theorem C19_no_caller_write over a hand-abstracted ownership/effect model (Model/Effects.v): effect sequences whose writes target library-allocated buffers leave caller buffers unchanged, and the abstracted pipelines are such sequences; numpy/h5py aliasing itself is below the model. Code-tied part: bit-exact before/after snapshots of every caller-owned buffer (root buffers of views, flags, dict identity, HDF5 hash) on every data-path case incl. failing writes',
+         'proof in Coq about an effect abstraction (partial) + runtime snapshot exploration of numpy aliasing'),
  'C06': ('7 C06', 'Coq theorems C06_roundtrip_<code> and C06_domain_<code> for all 15 codes over their whole value domain (lia with euclidean division); tie: K-prim correspondence on range edges, form boundaries and random values, decoder judgement of every emitted byte string',
          'proof in Coq (lia over Z, per-code round trip and exact domain) + correspondence'),
  'C10': ('7 C10', 'Coq theorems C10_out_invisible / C10_file (buffer invariant by induction over the record list: final file, reported total, every flush snapshot is label ++ prefix of records), C10_in_invisible (chunking is the identity); tie: every output chunk size vrl..file+1 with flush-tap snapshots, input chunk sweep',
